@@ -21,14 +21,14 @@ def name(rng):
 
 def rtext(rng, n=None):
     n = rng.randint(0, 6) if n is None else n
-    return "".join(rng.choice(WS) if rng.random() < 0.5 else rng.choice(WORDS + ["<", "&", ">", '"', "]]>", "a[b[0]]>1", "-->", "&amp;", "'"]) for _ in range(n))
+    return "".join(rng.choice(WS) if rng.random() < 0.5 else rng.choice(WORDS + ["<", "&", ">", '"', "]]>", "a[b[0]]>1", "-->", "&amp;", "'", "<!-- note -->", "<!--x-->", "<?pi x?>"]) for _ in range(n))
 
 
 def emit_text(rng, s):
     """character data with random use of entities, character references and CDATA"""
     if not s:
         return ""
-    if rng.random() < 0.15 and "]]>" not in s:
+    if "]]>" not in s and rng.random() < (0.6 if "<!--" in s or "<?" in s else 0.15):
         return "<![CDATA[" + s + "]]>"
     out = []
     for ch in s:
